@@ -1,5 +1,6 @@
 import ALock.Lemmas.RwLockWord
 import ALock.Lemmas.AtomicRwLock
+import ALock.Lemmas.AtomTraceRw
 
 /-!
 # C11 — RwLock: upgrade, try_upgrade and the downgrades are atomic transitions
@@ -146,3 +147,20 @@ example :
     s.ags = [.r, .ww] ∧ s.state = 3 := by decide
 
 end ALock.Atomic.RwLock
+
+namespace ALock.RwLock
+
+/-- **C11 (the conversions' word effects are what their atomic operations compute).**  The four guard
+conversions and `upgrade()`: replaying the recorded operations of the step on each word yields the
+model's new word. -/
+theorem C11_conv_atoms (s : Sys) (g : Nat) (c : Conv) :
+    Atom.wordOK 0 s.state (next s (.conv g c)).state (stepAtoms s (.conv g c)) ∧
+    Atom.wordOK 1 s.m.st (next s (.conv g c)).m.st (stepAtoms s (.conv g c)) :=
+  step_atoms_words s (.conv g c)
+
+theorem C11_upgrade_atoms (s : Sys) (g f : Nat) :
+    Atom.wordOK 0 s.state (next s (.upgrade g f)).state (stepAtoms s (.upgrade g f)) ∧
+    Atom.wordOK 1 s.m.st (next s (.upgrade g f)).m.st (stepAtoms s (.upgrade g f)) :=
+  step_atoms_words s (.upgrade g f)
+
+end ALock.RwLock
